@@ -9,7 +9,34 @@ From AnySync Require Export Model.StreamPool.
 Open Scope N_scope.
 
 Inductive case :=
-| CHist (workers dcap : N) (ops : list hop) (observed : list obs).
+| CHist (workers dcap : N) (ops : list hop) (observed : list obs)
+| CMq (cap : N) (ops : list mqop) (observed : list mqobs).
+
+(* monomorphic builders used by the generated case files (fast elaboration) *)
+Definition nN : list N := [].
+Definition cN (x : N) (l : list N) : list N := x :: l.
+Definition pP (a b : N) : N * N := (a, b).
+Definition nP : list (N * N) := [].
+Definition cP (x : N * N) (l : list (N * N)) := x :: l.
+Definition pK (a : N) (b : list N) : N * list N := (a, b).
+Definition nK : list (N * list N) := [].
+Definition cK (x : N * list N) (l : list (N * list N)) := x :: l.
+Definition pV (a : N) (b : sview) : N * sview := (a, b).
+Definition nV : list (N * sview) := [].
+Definition cV (x : N * sview) (l : list (N * sview)) := x :: l.
+Definition sOpen (cap : N) (tags : list N) (cg : bool) : option (N * list N * bool) := Some (cap, tags, cg).
+Definition sFail : option (N * list N * bool) := None.
+Definition pS (p : N) (o : option (N * list N * bool)) : N * option (N * list N * bool) := (p, o).
+Definition nS : list (N * option (N * list N * bool)) := [].
+Definition cS (x : N * option (N * list N * bool)) (l : list (N * option (N * list N * bool))) := x :: l.
+Definition nH : list hop := [].
+Definition cH (x : hop) (l : list hop) := x :: l.
+Definition nM : list mqop := [].
+Definition cM (x : mqop) (l : list mqop) := x :: l.
+Definition nQ : list mqobs := [].
+Definition cQ (x : mqobs) (l : list mqobs) := x :: l.
+Definition nO : list obs := [].
+Definition cO (x : obs) (l : list obs) := x :: l.
 
 Fixpoint list_eqb {A} (e : A -> A -> bool) (a b : list A) : bool :=
   match a, b with
@@ -34,11 +61,16 @@ Definition obs_eqb (a b : obs) : bool :=
 Definition model_ok (c : case) : bool :=
   match c with
   | CHist w d ops observed => list_eqb obs_eqb (model_hist (mkConfig w d) ops) observed
+  | CMq cap ops observed =>
+      list_eqb (fun a b => (mo_err a =? mo_err b) && list_eqb pairNN_eqb (mo_takes a) (mo_takes b)
+                           && list_eqb N.eqb (mo_threads a) (mo_threads b))
+               (mq_hist (mq_init cap) 0 ops) observed
   end.
 
 Definition spec_ok (c : case) : bool :=
   match c with
   | CHist _ _ ops observed => spec_C19 ops observed
+  | CMq _ _ observed => spec_C19_mq observed
   end.
 
 Fixpoint check_from (i : N) (l : list case) : list (N * N) :=
